@@ -5,6 +5,19 @@ ROOT = os.path.dirname(os.path.dirname(os.path.abspath(__file__)))
 
 # id -> (technique, level text, level note, design ref)
 CLAIMED = {
+ "C03": ("SSA/CFG shape rules on node/edit.go and the Selection entry points: strategy dispatch totality, control-dependence of the %w-wrapped fc.ConflictError / fc.NotFoundError on (strategy case × lookup result), dominance of the New=false lookup over every New=true create, parameter-identity of the strategy handed to recursive calls, data-dependence of useDefault, per-entry-point strategy constant and from/to orientation",
+         "Decides on all paths of the editor that insert conflicts exactly when the looked-up node exists, update fails with not-found exactly when it does not, nothing is created before it was looked up (or outside insert / upsert-and-absent), the strategy reaches every nested level unchanged and each API method starts the editor with its own strategy and direction. These are necessary conditions of the merge semantics; the merge result itself for a pair of trees and the behaviour of node implementations are not decided.",
+         "Error identities are resolved through the fc package's variables and fmt.Errorf verb parsing, not message text; anchors are the editor's function and parameter names (a rename makes the check fail as undecided, not pass).",
+         "DESIGN.md §2 C03"),
+ "C09": ("CFG must-pass-through and dominance rules on editor.leaf/editor.node/clearOnDifferentChoiceCase/clearChoiceCase/containerMetaList.lookAhead plus a sibling rule over every Choose implementation (no range over the Cases() map)",
+         "Decides that in upsert mode the target's active case is asked for and cleared before the leaf write / container create on every path, with the target selection and the node being written; that clearing covers leaves (ClearField) and containers/lists (Find+Delete) through the nested-choice-aware iterator; that readers reach a choice's children only through the case Node.Choose returned; and that every Choose implementation enumerates cases deterministically. Not decided: nested case → choice → case (only the direct parent case is examined by the code), and edit histories.",
+         "Anchored on function and parameter names of node/edit.go; Choose implementations are discovered by signature.",
+         "DESIGN.md §2 C09"),
+ "C12": ("pairing / must-pass-through analysis for beginEdit→deferred endEdit (same request literal and bubble flag, defer directly on the success edge), loop-exit dependence analysis of the ancestor loops, who-may-call for Node.BeginEdit/EndEdit, constant-argument rule for bubble/root, error-flow rule (every error on the edit path is tested before the next call and flows to the return) and %w verb rule for formatted errors",
+         "Decides on all exits (returns and panics) of every caller of beginEdit that the matching endEdit is deferred with the same request shape; that endEdit notifies all ancestors and the triggers whatever fails, and a failed beginEdit unwinds the nodes already begun; that only the two protocol functions invoke the node callbacks and only edit roots bubble; and that no callee error on the edit path is dropped, tested late or formatted without %w. Known finding: the deliberately swallowed Choose error before an upsert into a choice. Not decided: exact callback sequences, third-party nodes.",
+         "The list of edit-path functions is a frozen table (missing names fail the check); value identity across the deferred closure is resolved through the closure's bindings.",
+         "DESIGN.md §2 C12"),
+
  "C06": ("grammar lint over the goyacc source parser/parser.y (own yacc reader: productions, alternatives, symbols, Go actions parsed with go/parser): value delivery, enumerator alternatives, canonical string decode, builder-stack balance fix-point, extension keyword literals, lexer keyword table vs %token list; plus SSA rules on meta.Builder (dropped add* errors, stored-but-unreadable fields), map-iteration order effects on the load path, and ordered-witness rule for sibling collections",
          "Decides for every production of the grammar at once that each value-carrying symbol is used by its action, that string tokens reach the builder only through the decoder, that the builder stack is balanced and consistent across alternatives, and that the keyword tables agree; and for the builder that no insertion error is dropped, every stored field has a reader or consumer, and no load-path iteration over a map has an order-sensitive effect. Known findings (status dropped, three statements keep quotes, secondary extension attached twice, belongs-to name unreadable, map-only sibling collections) are pinned by the suite's gold files or are API-visible design. It does not decide the lexer's string scanning (escapes, concatenation) or comment handling.",
          "Trusts goyacc (parser.go is regenerated and compared in the thorough tier) and the yacc reader in checker/internal/yacc; map-order analysis follows static calls three levels and is path-insensitive (five loops triaged with reasons).",
